@@ -56,6 +56,26 @@ theorem forwarders_are_unsafe :
   · cases hfo : f.forwardsToUnsafe <;> simp [hfo] at hu h1
   · exact h1
 
+/-- **Bitwise copies require `T: Copy`.** Every callable fn (safe or unsafe) of the vector types
+    that announces a bitwise copy by its name (`copy`, `…_copy…` under `vecs::`) or whose body
+    duplicates element bits from a source that stays alive (`&self` / `&[T]`) into owned elements
+    with a raw-copy primitive — directly or through the same-type / free crate fns it calls — has
+    the bound `T: Copy` in force (on the fn or on its impl block) for its element type. So
+    `InlineVec::<String, N>::from_slice_copy(&[s])` cannot compile in client code: duplicating
+    the bits of a non-`Copy` value would create a second owner. No exemption is needed on the
+    current source (`copyExempt = []`). -/
+theorem bitwise_copy_requires_copy :
+    ∀ f ∈ pubFns, needsCopy f = true → f.key ∉ copyExempt →
+      f.elemParam ≠ 0 ∧ (f.elemParam, key% "Copy") ∈ f.bounds := by
+  have h : (chunks.all fun c => c.all bitwiseCopyOk) = true := by decide +kernel
+  intro f hf hn he
+  have := all_chunks h f hf
+  simp only [bitwiseCopyOk, hn, Bool.not_true, Bool.false_or, Bool.or_eq_true, Bool.and_eq_true,
+    bne_iff_ne, ne_eq, List.contains_eq_mem, decide_eq_true_eq] at this
+  rcases this with h1 | h1
+  · exact h1
+  · exact absurd h1 he
+
 /-- Translator cross-check: the `nameUnchecked` flag of every row is recomputed in Lean from
     the row's name. -/
 theorem name_unchecked_consistent :
@@ -120,7 +140,7 @@ example : pubFns.length > 400 ∧
 
 /-- The defect fixed in /repo (D13) is what the predicate rejects: the same row, safe. -/
 example : uncheckedOk ⟨"os_string::HipOsStr::slice_ref_unchecked", 0, "slice_ref_unchecked", 0, 0, .inherent,
-    false, true, true, none, [], [], [], "src/os_string.rs:661"⟩ = false := by decide
+    false, true, true, none, [], "", 0, none, false, false, [], [], [], "src/os_string.rs:661"⟩ = false := by decide
 
 /-- `region_flow` is not vacuous: hundreds of safe rows have region-carrying inputs and outputs,
     and every may-alias name denotes at least one such row. -/
@@ -133,10 +153,10 @@ example :
     Hip `'borrow` instead of `&self`. -/
 example :
     flowOk ⟨"string::HipStr::as_borrowed", key% "string::HipStr::as_borrowed", "as_borrowed",
-      key% "as_borrowed", key% "string::HipStr", .inherent, false, false, false, none,
+      key% "as_borrowed", key% "string::HipStr", .inherent, false, false, false, none, [], "", 0, none, false, false,
       [⟨.selfRef, .elided 0⟩, ⟨.selfHip, .named (key% "'borrow")⟩], [⟨.ref, .static⟩], [], "x"⟩ = false ∧
     flowOk ⟨"string::HipStr::as_str", key% "string::HipStr::as_str", "as_str", key% "as_str",
-      key% "string::HipStr", .inherent, false, false, false, none,
+      key% "string::HipStr", .inherent, false, false, false, none, [], "", 0, none, false, false,
       [⟨.selfRef, .elided 0⟩, ⟨.selfHip, .named (key% "'borrow")⟩],
       [⟨.ref, .named (key% "'borrow")⟩], [], "x"⟩ = false := by
   decide
@@ -145,31 +165,46 @@ example :
     `impl MutVector for Vec<T> { fn set_len(&mut self, len) { unsafe { self.set_len(len) } } }`. -/
 example : (pubFns.filter fun f => f.forwardsToUnsafe.isSome).length ≥ 2 ∧
     forwarderOk ⟨"<alloc::vec::Vec<T> as MutVector>::set_len", 0, "set_len", 0, 0, .traitImpl,
-      false, false, false, some "self.set_len", [⟨.selfRef, .elided 0⟩], [], [], "x"⟩ = false := by
+      false, false, false, some "self.set_len", [], "", 0, none, false, false, [⟨.selfRef, .elided 0⟩], [], [], "x"⟩ = false := by
   decide +kernel
 
 /-- What the generalised reference rule rejects: `Drain<'a, V>::as_slice(&self) -> &'a [T]`
     (the region of the drain's `&'a mut V` field), while the real signature (tied to `&self`)
     passes; a by-value `self` may give the region away. -/
 example :
-    flowOk ⟨"common::drain::Drain::as_slice", 1, "as_slice", 2, 3, .inherent, false, false, false, none,
+    flowOk ⟨"common::drain::Drain::as_slice", 1, "as_slice", 2, 3, .inherent, false, false, false, none, [], "", 0, none, false, false,
       [⟨.selfRef, .elided 0⟩, ⟨.selfMut, .named 7⟩], [⟨.ref, .named 7⟩], [], "x"⟩ = false ∧
-    flowOk ⟨"common::drain::Drain::as_slice", 1, "as_slice", 2, 3, .inherent, false, false, false, none,
+    flowOk ⟨"common::drain::Drain::as_slice", 1, "as_slice", 2, 3, .inherent, false, false, false, none, [], "", 0, none, false, false,
       [⟨.selfRef, .elided 0⟩, ⟨.selfMut, .named 7⟩], [⟨.ref, .elided 0⟩], [], "x"⟩ = true ∧
-    flowOk ⟨"T::into_inner", 1, "into_inner", 2, 3, .inherent, false, false, false, none,
+    flowOk ⟨"T::into_inner", 1, "into_inner", 2, 3, .inherent, false, false, false, none, [], "", 0, none, false, false,
       [⟨.selfMut, .named 7⟩], [⟨.ref, .named 7⟩], [], "x"⟩ = true ∧
-    flowOk ⟨"T::get", 1, "get", 2, 3, .inherent, false, false, false, none,
+    flowOk ⟨"T::get", 1, "get", 2, 3, .inherent, false, false, false, none, [], "", 0, none, false, false,
       [⟨.selfRef, .elided 0⟩, ⟨.selfOther, .named 7⟩], [⟨.ref, .named 7⟩], [], "x"⟩ = false := by
   decide
+
+/-- `bitwise_copy_requires_copy` is exercised by real rows (8: both vector types, safe and unsafe,
+    name and body rule), and rejects the seeded defect: the same row under `T: Clone`. -/
+example :
+    (pubFns.filter needsCopy).length = 8 ∧ (pubFns.filter bodyDuplicates).length = 7 ∧
+    (pubFns.filter fun f => f.bounds.contains (f.elemParam, key% "Copy")).length ≥ 8 ∧
+    bitwiseCopyOk ⟨"vecs::inline::InlineVec::copy", key% "vecs::inline::InlineVec::copy", "copy",
+      key% "copy", key% "vecs::inline::InlineVec", .inherent, false, false, false, none,
+      [(key% "T", key% "Clone")], "T: Clone", key% "T", some "copy_from_nonoverlapping", true, true,
+      [⟨.selfRef, .elided 0⟩], [], [], "x"⟩ = false ∧
+    bitwiseCopyOk ⟨"vecs::thin::ThinVec::from_slice", key% "vecs::thin::ThinVec::from_slice", "from_slice",
+      key% "from_slice", key% "vecs::thin::ThinVec", .inherent, false, false, false, none,
+      [(key% "T", key% "Clone")], "T: Clone", key% "T", some "copy_from", true, true,
+      [⟨.argRef, .elided 0⟩], [], [], "x"⟩ = false := by
+  decide +kernel
 
 /-- The declared bound is what makes `borrow_deserialize<'de: 'a, 'a, …>` pass. -/
 example :
     flowOk ⟨"bytes::serde::borrow_deserialize", key% "bytes::serde::borrow_deserialize",
-      "borrow_deserialize", key% "borrow_deserialize", key% "bytes::serde", .free, false, false, false, none,
+      "borrow_deserialize", key% "borrow_deserialize", key% "bytes::serde", .free, false, false, false, none, [], "", 0, none, false, false,
       [⟨.argOther, .named (key% "'de")⟩], [⟨.hip, .named (key% "'a")⟩],
       [(.named (key% "'de"), .named (key% "'a"))], "x"⟩ = true ∧
     flowOk ⟨"bytes::serde::borrow_deserialize", key% "bytes::serde::borrow_deserialize",
-      "borrow_deserialize", key% "borrow_deserialize", key% "bytes::serde", .free, false, false, false, none,
+      "borrow_deserialize", key% "borrow_deserialize", key% "bytes::serde", .free, false, false, false, none, [], "", 0, none, false, false,
       [⟨.argOther, .named (key% "'de")⟩], [⟨.hip, .named (key% "'a")⟩], [], "x"⟩ = false := by
   decide
 
